@@ -142,6 +142,8 @@ class Copy(CircuitContract):
             return
         shared = [k for k in result.fields if result.fields[k] is st['c'].fields.get(k)]
         yield ('shares-no-container-with-the-original', z3.BoolVal(not shared))
+        yield ('block-member-lists-are-new-lists', z3.BoolVal(not [e for e in h2.events if e[0] == 'block-shares-list']),
+               {'witness': 'copied-block-aliases-a-list-of-the-original'})
         CM.sync_fields(it, h2)
         S2 = h2.S.copy()
         S2.rank = S1.rank
